@@ -352,6 +352,8 @@ class Interp:
             return Sym(f"dictmethod:{attr}"), base  # handled in call
         if isinstance(base, list) and attr in ("append", "extend", "insert", "pop", "remove", "clear", "index", "count", "copy", "reverse"):
             return _PyMethod(base, attr)
+        if isinstance(base, list) and attr == "sort" and all(isinstance(x, (int, float, Fraction, str)) and not isinstance(x, bool) for x in base):
+            return _PyMethod(base, attr)  # concrete elements: sorted in place like the real list
         if isinstance(base, dict) and attr in ("update", "setdefault", "pop", "copy", "clear"):
             return _PyMethod(base, attr)
         if isinstance(base, (set, frozenset)) and attr in ("isdisjoint", "issubset", "issuperset", "union", "intersection", "difference", "symmetric_difference"):
@@ -1023,7 +1025,7 @@ class Interp:
 
     def apply(self, fv, args, kwargs, node):
         if isinstance(fv, _PyMethod):
-            if kwargs:
+            if kwargs and fv.name != "sort":
                 raise Undecided("keyword arguments to container method")
             a = [(_hashable(x) if isinstance(fv.obj, (dict, set)) and fv.name in ("setdefault", "pop", "add", "discard", "remove") and i == 0 else x) for i, x in enumerate(args)]
             if isinstance(fv.obj, list) and fv.name == "extend" and a and isinstance(a[0], _DictView):
@@ -1032,6 +1034,11 @@ class Interp:
                 # identity/equality on abstract values: only symbols and concrete values are comparable
                 if not all(is_concrete(x) for x in list(fv.obj) + a):
                     raise Undecided("search in a list of abstract values")
+            if fv.name == "sort" and isinstance(fv.obj, list):
+                if set(kwargs) - {"reverse"} or args:
+                    raise Undecided("list.sort with a key")
+                fv.obj.sort(reverse=bool(kwargs.get("reverse", False)))
+                return None
             if isinstance(fv.obj, (set, frozenset)) and fv.name in ("isdisjoint", "issubset", "issuperset", "union", "intersection", "difference", "symmetric_difference"):
                 other = []
                 for x in a:
